@@ -133,6 +133,25 @@ func (env *CEnv) eval(e *CExpr) Val {
 			}
 			return boolSV(t)
 		}
+		if e.Kind == "forall" && len(e.Trig) > 0 {
+			// explicit triggers from the contract: no re-indexed variants, the alternatives say how the clause is to be matched
+			var alts [][]*Term
+			for _, alt := range e.Trig {
+				var ts []*Term
+				for _, te := range alt {
+					sv, ok := sub.eval(te).(SV)
+					if !ok {
+						fail("%s: trigger %s is not a term", e.Pos, te)
+					}
+					ts = append(ts, sv.T)
+				}
+				alts = append(alts, ts)
+			}
+			if body.IsTrue() {
+				return boolSV(body)
+			}
+			return boolSV(&Term{Op: "forall", S: SBool, Bound: bound, Args: []*Term{body}, Alts: alts})
+		}
 		if e.Kind == "forall" {
 			return boolSV(Forall(bound, body))
 		}
